@@ -120,7 +120,8 @@ impl<'a> Gen<'a> {
             return (text, crate::gen::proper_list(es, tail.map(|t| logic_var!(t))));
         }
         // complex term (arity 0-3)
-        let f = *self.r.pick(&["f", "g", "loves", "element"]);
+        // (functors ending in every kind of character the tokenizer accepts before a parenthesis)
+        let f = *self.r.pick(&["f", "g", "loves", "element", "p9", "q0", "route19", "my_pred", "a-b", "x_", "Z"]);
         let n = self.r.below(4);
         let mut ts = vec![]; let mut es = vec![atom!(f)];
         for _ in 0..n { let (t, e) = self.term(d + 1); ts.push(t); es.push(e); }
@@ -385,6 +386,7 @@ pub fn run_contexts(out: &mut Out, cfg: &Cfg, seed: u64, n: usize) {
                     "$Ω", "$é1", "$_x", "$_", "\\,", "a\\,b", "\"1 2\"", "\"12\"", "a\\b", "OK\\, sure", "\\5", "1\\2", "x\\;y", "\\a",
                     "(1)2", "[1]2", "(a)1", "1[2]", "1(2)3", "(1)", "(12)", "2(1)", "1\"a\"", "a\"b\"", "a\"b", "\"a\"b",
                     "\":)\"", "\"(\"", "\"a)b\"", "\"[x\"", "a\\)b", "x\\(y", "\"smile :)\"", "\"a, b\"", "\"]\"",
+                    "４２", "１.５", "²", "½", "Ⅳ", "①", "٤٢", "१०", "4２", "x²",
                     "$X + 1", "1 + 2", "$A * $B", "a - b", "6 / 3", "1.5 + $X",
                     "555-1234", "2023-01-05", "10+20", "1.5-2.5", "7-", "-7-", "1e-5", "3-a", "a-3", "--3", "+-3"];
     for i in 0..n {
@@ -496,22 +498,24 @@ pub fn run_reader(out: &mut Out, cfg: &Cfg, seed: u64, n: usize) {
         let nrules = 1 + r.below(5);
         let mut texts = vec![];
         for _ in 0..nrules { let mut g = Gen{r: &mut r, depth: 2}; texts.push(g.rule().0); }
+        // comment characters inside a list that is not inside parentheses
+        if r.chance(1, 3) { texts.insert(r.below(texts.len() + 1), "channels($C) :- $C = [general, #random, %dev, a//b, announcements].".to_string()); }
         // layout: break lines after the documented continuation characters outside brackets, indent, blank lines, comments
         let mut file = String::new();
         for t in &texts {
             if r.chance(1, 4) { file.push_str(match r.below(3) { 0 => "# a comment\n", 1 => "% another one\n", _ => "// and a third\n" }); }
             if r.chance(1, 5) { file.push('\n'); }
             let cs: Vec<char> = t.chars().collect();
-            let mut depth = 0i32; let mut quote = false;
+            let mut depth = 0i32; let mut round = 0i32; let mut quote = false;
             let mut i = 0;
             while i < cs.len() {
                 let c = cs[i]; file.push(c);
                 if c == '"' { quote = !quote; }
-                if !quote { if c == '(' || c == '[' { depth += 1; } if c == ')' || c == ']' { depth -= 1; } }
+                if !quote { if c == '(' || c == '[' { depth += 1; } if c == ')' || c == ']' { depth -= 1; } if c == '(' { round += 1; } if c == ')' { round -= 1; } }
                 let next_space = i + 1 < cs.len() && cs[i + 1] == ' ';
-                let breakable = depth == 0 && !quote && (c == ',' || c == ';' || c == '=' || (c == '-' && i > 0 && cs[i - 1] == ':')) && next_space;
+                let breakable = (depth == 0 || (round == 0 && c == ',')) && !quote && (c == ',' || c == ';' || c == '=' || (c == '-' && i > 0 && cs[i - 1] == ':')) && next_space;
                 if breakable && r.chance(1, 3) {
-                    if r.chance(1, 4) { file.push_str("   # trailing comment"); }
+                    if depth == 0 && r.chance(1, 4) { file.push_str("   # trailing comment"); }   // (a comment is only one outside parentheses and brackets)
                     file.push('\n');
                     if r.chance(1, 3) { file.push('\n'); }
                     for _ in 0..r.below(6) { file.push(' '); }
@@ -561,7 +565,18 @@ pub fn run_reader(out: &mut Out, cfg: &Cfg, seed: u64, n: usize) {
                     Some(_) => "kb err".to_string() };
                 let rec = format!("{} ; {}", texts, rec);
                 let v = if e2.is_some() { Ok(()) }      // a rule the rule parser itself rejects: outside (C19's business)
-                        else if e1.is_some() { Err(format!("a file of parsable rules was rejected: {}", e1.clone().unwrap())) }
+                        else if e1.is_some() {
+                            // a comment character inside brackets that were opened on an earlier line (the reader counts brackets line by line)
+                            let carried = { let (mut r, mut q, mut inq, mut found) = (0i32, 0i32, false, false);
+                                for line in file.split('\n') { let (mut lr, mut lq) = (0i32, 0i32); let mut prev = 'x';
+                                    for c in line.chars() {
+                                        if c == '"' { inq = !inq; } else if !inq {
+                                            if c == '(' { r += 1; lr += 1; } else if c == ')' { r -= 1; lr -= 1; } else if c == '[' { q += 1; lq += 1; } else if c == ']' { q -= 1; lq -= 1; }
+                                            else if (c == '#' || c == '%' || (c == '/' && prev == '/')) && lr == 0 && lq == 0 { if r != 0 || q != 0 { found = true; } break; } }
+                                        prev = c; } }
+                                found };
+                            let what = if carried { "comment character inside brackets opened on an earlier line: " } else { "" };
+                            Err(format!("{}a file of parsable rules was rejected: {}", what, e1.clone().unwrap())) }
                         else if format_kb(kb1) != format_kb(kb2) { Err("the loaded knowledge base differs from parsing the rules one by one".to_string()) }
                         else if let Ok(Some((a, b))) = &appended { if a != b { Err("loading into a knowledge base that already holds clauses of the same predicates does not append the file's rules in order".to_string()) } else { Ok(()) } }
                         else { Ok(()) };
